@@ -128,3 +128,9 @@ package trusted
 //@   assigns internal
 //@ trusted func (*sync.Pool).Put
 //@   assigns internal
+
+// math/bits.Len (con-c08g, mirrors Len64: on the 64-bit targets of this project uint is 64 bits wide): minimum number of
+// bits to represent x (documentation); the clause is its exact definition.
+//@ trusted func math/bits.Len
+//@   pure
+//@   ensures def: (x == 0 ==> r0 == 0) && (x != 0 ==> 1 <= r0 && r0 <= 64 && x>>uint(r0-1) == 1)
